@@ -40,6 +40,7 @@ type Frame struct {
 	openLoops map[*ssa.BasicBlock]*loopCtx
 	top    bool
 	lastLookupAddr bool
+	loopPre map[*ssa.BasicBlock]*State
 }
 
 type retRec struct {
@@ -457,6 +458,10 @@ func (fr *Frame) enterLoop(order []*ssa.BasicBlock, h *ssa.BasicBlock, ins []edg
 		sts = append(sts, e.st)
 	}
 	pre := u.mergeStates(sts)
+	if fr.loopPre == nil {
+		fr.loopPre = map[*ssa.BasicBlock]*State{}
+	}
+	fr.loopPre[h] = pre.clone()
 	ord := fr.loopOrdinal(h)
 	// 1. phi values on entry
 	for _, in := range h.Instrs {
